@@ -254,6 +254,17 @@ func (c *Ctx) ViolationList() []Violation {
 	return append([]Violation(nil), c.res.Violations...)
 }
 
+// CounterList returns a copy of the named counters.
+func (c *Ctx) CounterList() map[string]int64 {
+	c.mu.Lock()
+	defer c.mu.Unlock()
+	out := map[string]int64{}
+	for k, v := range c.res.Counters {
+		out[k] = v
+	}
+	return out
+}
+
 // Violations returns the number recorded so far.
 func (c *Ctx) NViolations() int64 { return atomic.LoadInt64(&c.nviol) }
 
